@@ -25,6 +25,8 @@ import (
 	"context"
 	"errors"
 	"fmt"
+	"io"
+	"log/slog"
 	"regexp"
 	"sort"
 	"strings"
@@ -62,9 +64,19 @@ type Case struct {
 	Hold      bool                    `json:"hold"`
 	// http layer: after the first query the SAME client (cache alive) is asked again, once per entry, about the window
 	// shifted by that many steps (0 = the same window); those responses are not held but delayed per slice by DelaysUs
-	Shifts   []int  `json:"shifts,omitempty"`
-	DelaysUs []int  `json:"delays_us,omitempty"`
-	Class    string `json:"class,omitempty"`
+	Shifts   []int `json:"shifts,omitempty"`
+	DelaysUs []int `json:"delays_us,omitempty"`
+	// failover layer: Series/Faults describe the first upstream of a failover group, Replicas the following ones
+	// (different data, own per-slice fault tables; the last one has none)
+	Faults   []string  `json:"faults,omitempty"`
+	Replicas []Replica `json:"replicas,omitempty"`
+	Class    string    `json:"class,omitempty"`
+}
+
+// Replica: one further upstream of the failover layer.
+type Replica struct {
+	Series []fakeprom.BitmapSeries `json:"series"`
+	Faults []string                `json:"faults,omitempty"`
 }
 
 func (c Case) bitmap() fakeprom.Bitmap {
@@ -82,7 +94,13 @@ func (a absRange) String() string      { return fmt.Sprintf("%d-%d/%d", a.start,
 var (
 	errSkip         = errors.New("precondition not met")
 	errInconclusive = errors.New("inconclusive")
+	// errNoFailover: the failover layer got an error although its last upstream is healthy. That is a matter of WHICH
+	// upstream answers (C15's subject: seen when a slice that was being read is cut off by the cancellation a failed
+	// sibling triggers, and its parse error replaces the sibling's 503/reset) - there is no result for C13 to judge.
+	errNoFailover = errors.New("query failed instead of failing over")
 )
+
+func init() { slog.SetDefault(slog.New(slog.NewTextHandler(io.Discard, nil))) }
 
 // ---------------------------------------------------------------------------
 // reference model
@@ -279,6 +297,7 @@ type shape struct {
 	beforeStart bool // structural predicate of C13-K1 holds for this case
 	// the same predicate, evaluated for the window of the repeated query that failed with errBeforeStart
 	followBeforeStart bool
+	failedOver        int // failover layer: number of upstreams that saw a request
 }
 
 func slicesOf(reqs []fakeprom.RangeRequest) []fakeprom.RangeRequest {
@@ -351,6 +370,9 @@ func (sh shape) class(c Case) (string, bool) {
 		}
 	}
 	nt := sh.slices >= 2 && len(rel) > 0
+	if c.Kind == "failover" {
+		nt = sh.slices >= 2 && sh.failedOver >= 2
+	}
 	pre := ""
 	if sh.beforeStart {
 		pre = ":prestart"
@@ -641,8 +663,113 @@ func checkMerge(c Case) (sh shape, err error) {
 	return sh, nil
 }
 
+// checkFailover: a failover group of 2-3 bitmap servers holding DIFFERENT data; earlier upstreams fail some slices
+// with an unavailability fault (503 / connection reset / timeout) and answer the others. Whatever upstream the
+// group ends up with, the result must be the unsliced evaluation ON THE SERVER THAT ANSWERED (the URI the result
+// carries) - never a per-slice mix of several servers.
+func checkFailover(c Case) (sh shape, err error) {
+	if err = validate(c); err != nil {
+		return sh, err
+	}
+	if len(c.Replicas) == 0 {
+		return sh, errSkip
+	}
+	type upstream struct {
+		c   Case // the case as this server sees it (its own series)
+		srv *fakeprom.BitmapServer
+	}
+	var ups []upstream
+	all := append([]Replica{{Series: c.Series, Faults: c.Faults}}, c.Replicas...)
+	predicted := predictSlices(c.Start, c.End, c.Step)
+	var proms []*promapi.Prometheus
+	for _, r := range all {
+		uc := c
+		uc.Series = r.Series
+		bm := uc.bitmap()
+		bm.Faults = r.Faults
+		srv := fakeprom.NewBitmapServer(bm, false)
+		defer srv.Close()
+		ups = append(ups, upstream{uc, srv})
+		timeout := 2 * time.Minute
+		for _, f := range r.Faults {
+			if f == "timeout" {
+				timeout = 50 * time.Millisecond // pint adds a second
+			}
+		}
+		proms = append(proms, promapi.NewPrometheus("c13", srv.URL(), "", nil, timeout, predicted+4, 1_000_000, nil))
+	}
+	fg := promapi.NewFailoverGroup("c13", ups[0].srv.URL(), proms, true, "up", nil, nil, nil)
+	reg := prometheus.NewRegistry()
+	fg.StartWorkers(reg)
+	defer fg.Close(reg)
+
+	type out struct {
+		r   *promapi.RangeQueryResult
+		err error
+		pan any
+	}
+	done := make(chan out, 1)
+	go func() {
+		var o out
+		defer func() {
+			if p := recover(); p != nil {
+				o.pan = p
+			}
+			done <- o
+		}()
+		o.r, o.err = fg.RangeQuery(context.Background(), "c13_metric", absRange{c.Start, c.End, c.Step})
+	}()
+	var o out
+	select {
+	case o = <-done:
+	case <-time.After(120 * time.Second):
+		return sh, fmt.Errorf("%w: RangeQuery did not return within 120s", errInconclusive)
+	}
+	if o.pan != nil {
+		return sh, fmt.Errorf("RangeQuery panicked: %v", o.pan)
+	}
+	var union []fakeprom.RangeRequest
+	contacted := 0
+	for _, u := range ups {
+		if p := u.srv.Problems(); len(p) > 0 {
+			return sh, fmt.Errorf("%w: fake server could not interpret a request: %s", errInconclusive, p[0])
+		}
+		rq := u.srv.Requests()
+		if len(rq) > 0 {
+			contacted++
+		}
+		union = append(union, rq...)
+	}
+	if o.err != nil {
+		return sh, fmt.Errorf("%w: %v", errNoFailover, o.err)
+	}
+	ans := -1
+	for i, u := range ups {
+		if u.srv.URL() == o.r.URI {
+			ans = i
+		}
+	}
+	if ans < 0 {
+		return sh, fmt.Errorf("the result names %q as its source, which is none of the %d upstreams", o.r.URI, len(ups))
+	}
+	a := ups[ans]
+	sh = classify(a.c, a.srv, union)
+	sh.failedOver = contacted
+	want, err := reference(a.c, a.srv, union)
+	if err != nil {
+		return sh, err
+	}
+	if err := judge(a.c, want, spansOf(o.r.Series.Ranges), union); err != nil {
+		return sh, fmt.Errorf("start=%d end=%d step=%ds, %d upstream(s), %d contacted, result attributed to upstream %d (%s): not the unsliced evaluation on that server: %w",
+			c.Start, c.End, c.Step, len(ups), contacted, ans, o.r.URI, err)
+	}
+	return sh, nil
+}
+
 func run(c Case) (shape, error) {
 	switch c.Kind {
+	case "failover":
+		return checkFailover(c)
 	case "http":
 		return checkHTTP(c)
 	case "merge":
@@ -822,6 +949,34 @@ func genCase(t *rapid.T, kind string) Case {
 	}
 
 	keyGen := rapid.SliceOfN(rapid.IntRange(0, 999), nKeys, nKeys)
+	if kind == "failover" {
+		// further upstreams hold the same series with different presence: shifted by a drawn number of grid points,
+		// optionally inverted; every upstream but the last fails some slices and answers the others
+		faultGen := rapid.SliceOfN(rapid.SampledFrom([]string{"", "", "", "503", "503", "reset", "reset", ""}), 3, 8)
+		mkFaults := func(label string) []string {
+			f := faultGen.Draw(t, label)
+			f[rapid.IntRange(0, len(f)-1).Draw(t, label+".bad")] = rapid.SampledFrom([]string{"503", "503", "reset", "reset", "503", "reset", "503", "reset", "503", "reset", "503", "timeout"}).Draw(t, label+".kind")
+			return f
+		}
+		c.Faults = mkFaults("faults0")
+		nr := rapid.IntRange(1, 2).Draw(t, "replicas")
+		for r := 0; r < nr; r++ {
+			rep := Replica{}
+			for si, sr := range c.Series {
+				shift := rapid.IntRange(1, max(2, int(L))).Draw(t, fmt.Sprintf("rep%d.shift%d", r, si))
+				runs := append([]int{shift}, sr.Runs...)
+				if rapid.Bool().Draw(t, fmt.Sprintf("rep%d.invert%d", r, si)) {
+					runs = append([]int{0}, runs...)
+				}
+				rep.Series = append(rep.Series, fakeprom.BitmapSeries{Labels: sr.Labels, Runs: runs})
+			}
+			if r < nr-1 {
+				rep.Faults = mkFaults(fmt.Sprintf("faults%d", r+1))
+			}
+			c.Replicas = append(c.Replicas, rep)
+		}
+		return c
+	}
 	if kind == "http" {
 		c.Hold = rapid.IntRange(0, 9).Draw(t, "hold") != 0
 		c.OrderKeys = keyGen.Draw(t, "order")
@@ -868,7 +1023,7 @@ var wsRe = regexp.MustCompile(`\s+`)
 
 func caseKey(c Case) string {
 	var b strings.Builder
-	fmt.Fprintf(&b, "%s|%d|%d|%d|%v|%v|%v|%v|%v", c.Kind, c.Start, c.End, c.Step, c.OrderKeys, c.PermKeys, c.Orders, c.Shifts, c.DelaysUs)
+	fmt.Fprintf(&b, "%s|%d|%d|%d|%v|%v|%v|%v|%v|%v|%v", c.Kind, c.Start, c.End, c.Step, c.OrderKeys, c.PermKeys, c.Orders, c.Shifts, c.DelaysUs, c.Faults, c.Replicas)
 	for _, s := range c.Series {
 		fmt.Fprintf(&b, "|%v%v", s.Labels, s.Runs)
 	}
@@ -885,6 +1040,11 @@ func drive(t *testing.T, kind string) {
 		if errors.Is(err, errSkip) {
 			rec.Case("skipped:"+kind, false, "", nil)
 			rec.Count("precondition_skips", 1)
+			return
+		}
+		if errors.Is(err, errNoFailover) {
+			rec.Case("no-result:"+kind, false, "", nil)
+			rec.Count("failover_layer_query_failed_instead_of_failing_over", 1)
 			return
 		}
 		if errors.Is(err, errInconclusive) {
@@ -914,8 +1074,9 @@ func drive(t *testing.T, kind string) {
 	}
 }
 
-func TestPropRangeQuery(t *testing.T) { drive(t, "http") }
-func TestPropMergeOrder(t *testing.T) { drive(t, "merge") }
+func TestPropRangeQuery(t *testing.T)    { drive(t, "http") }
+func TestPropMergeOrder(t *testing.T)    { drive(t, "merge") }
+func TestPropRangeFailover(t *testing.T) { drive(t, "failover") }
 
 func TestReplay(t *testing.T) {
 	p := vstat.ReplayPath()
@@ -927,7 +1088,7 @@ func TestReplay(t *testing.T) {
 		t.Fatal(err)
 	}
 	_, err := run(c)
-	if errors.Is(err, errSkip) {
+	if errors.Is(err, errSkip) || errors.Is(err, errNoFailover) {
 		return
 	}
 	if errors.Is(err, errInconclusive) {
